@@ -31,6 +31,23 @@ pub struct LoopCase {
     pub vseed: u64,
 }
 
+/// forwards to a layer; every time the model asks for the parameters (once per update) it keeps a clone of each
+/// parameter array as it is at that moment - the arrays the update is about to replace
+struct KeepSpy<'a> {
+    inner: &'a mut dyn Layer,
+    kept: std::rc::Rc<std::cell::RefCell<Vec<Vec<Array>>>>,
+}
+impl<'a> Layer for KeepSpy<'a> {
+    fn forward(&self, input: Array) -> Array {
+        self.inner.forward(input)
+    }
+    fn parameters(&mut self) -> Vec<&mut Array> {
+        let ps = self.inner.parameters();
+        self.kept.borrow_mut().push(ps.iter().map(|p| (*p).clone()).collect());
+        ps
+    }
+}
+
 fn sole(a: Array) -> bool {
     guarded(move || Vec::<Float>::from(a)).is_ok()
 }
@@ -46,7 +63,7 @@ impl CaseKind for LoopCase {
     fn run(&self) -> Outcome {
         let mut k = KeyHasher::new("loop");
         k.u(self.arch as u64).u(self.batch as u64).u(self.iterations as u64).u(self.act as u64).u(self.cost as u64).u(self.skip_update_every as u64);
-        let classes = vec![format!("arch:{}", if self.arch == 0 { "dense" } else { "conv" }), format!("batch:{}", self.batch.min(3))];
+        let classes = vec![format!("arch:{}", ["dense", "conv", "dense-64-values-watched", "conv-64-values-watched"][self.arch % 4]), format!("batch:{}", self.batch.min(3))];
         let res = guarded(|| -> Result<(), String> {
             let init = initializer::he();
             let gd = GradientDescent::new(0.05);
@@ -57,7 +74,27 @@ impl CaseKind for LoopCase {
             let mut c1;
             let mut c2;
             let (in_dims, out_n): (Vec<usize>, usize);
-            let layers: Vec<&mut dyn Layer> = if self.arch == 0 {
+            let kept_params: std::rc::Rc<std::cell::RefCell<Vec<Vec<Array>>>> = Default::default();
+            let mut spies: Vec<KeepSpy> = vec![];
+            let mut d3;
+            let mut d4;
+            let mut c3;
+            let layers: Vec<&mut dyn Layer> = if self.arch == 2 {
+                // parameters with 64 values and more, watched: the arrays an update replaces must be released
+                d3 = Dense::new(8, 8, &init, Some(&acts[self.act % 2]));
+                d4 = Dense::new(8, 2, &init, Some(&acts[if self.cost == 1 { 2 } else { self.act % 3 }]));
+                in_dims = if self.batch == 0 { vec![8] } else { vec![self.batch, 8] };
+                out_n = 2 * self.batch.max(1);
+                spies.push(KeepSpy { inner: &mut d3, kept: kept_params.clone() });
+                spies.push(KeepSpy { inner: &mut d4, kept: kept_params.clone() });
+                spies.iter_mut().map(|s| s as &mut dyn Layer).collect()
+            } else if self.arch == 3 {
+                c3 = Conv::new((4, 4, 2, 2), (1, 1), &init, Some(activation::sigmoid()));
+                in_dims = if self.batch == 0 { vec![4, 3, 3] } else { vec![self.batch, 4, 3, 3] };
+                out_n = 16 * self.batch.max(1);
+                spies.push(KeepSpy { inner: &mut c3, kept: kept_params.clone() });
+                spies.iter_mut().map(|s| s as &mut dyn Layer).collect()
+            } else if self.arch == 0 {
                 d1 = Dense::new(3, 4, &init, Some(&acts[self.act % 2]));
                 d2 = Dense::new(4, 2, &init, Some(&acts[if self.cost == 1 { 2 } else { self.act % 3 }]));
                 in_dims = if self.batch == 0 { vec![3] } else { vec![self.batch, 3] };
@@ -89,6 +126,15 @@ impl CaseKind for LoopCase {
                     }
                     if !sole(ti) {
                         return Err(format!("LEAK: the target batch of iteration {} is still referenced after the forward pass of iteration {}", j, it));
+                    }
+                }
+                // so must the parameter arrays that earlier updates replaced
+                for (u, ps) in kept_params.borrow_mut().drain(..).enumerate() {
+                    for (pi, p) in ps.into_iter().enumerate() {
+                        let n = p.values().len();
+                        if !sole(p) {
+                            return Err(format!("LEAK: parameter array {} ({} values) of layer call {} replaced by an earlier update is still referenced after the forward pass of iteration {}", pi, n, u, it));
+                        }
                     }
                 }
                 let _loss = model.backward(target.clone());
@@ -168,13 +214,13 @@ pub fn run(ctx: &Ctx) -> i32 {
     }
     // training loops: 2 architectures x batch {unbatched,1,2,3} x activations x costs x update skipping
     let iters = t.pick(4usize, 12);
-    st.merge(ctx.run_indexed("training-loops", 2 * 4 * 3 * 2 * 3, None, |i| {
-        let arch = (i % 2) as usize;
-        let batch = ((i / 2) % 4) as usize;
-        let act = ((i / 8) % 3) as usize;
-        let costk = ((i / 24) % 2) as usize;
-        let skip = [0usize, 2, 3][((i / 48) % 3) as usize];
-        Some(Case18::L(LoopCase { arch, batch, iterations: iters, act, cost: if arch == 1 { 0 } else { costk }, skip_update_every: skip, vseed: i * 1000 + ctx.seed }))
+    st.merge(ctx.run_indexed("training-loops", 4 * 4 * 3 * 2 * 3, None, |i| {
+        let arch = (i % 4) as usize;
+        let batch = ((i / 4) % 4) as usize;
+        let act = ((i / 16) % 3) as usize;
+        let costk = ((i / 48) % 2) as usize;
+        let skip = [0usize, 2, 3][((i / 96) % 3) as usize];
+        Some(Case18::L(LoopCase { arch, batch, iterations: iters, act, cost: if arch % 2 == 1 { 0 } else { costk }, skip_update_every: skip, vseed: i * 1000 + ctx.seed }))
     }));
     if ctx.tier == Tier::Thorough {
         st.merge(ctx.run_fuzz(20000, ctx.threads, &dispatch));
